@@ -149,7 +149,7 @@ let run_case ~dump (c : case) (impl : string array) : (int * string * string * s
      | LProbe now ->
        let m = fmt_probe c !st now in
        if dump then Printf.printf "  M %s\n" m;
-       if m <> get !i then result := Some (!i, "probe " ^ string_of_int now, m, get !i)
+       if m <> get !i && get !i <> "*" then result := Some (!i, "probe " ^ string_of_int now, m, get !i)
      | LOp (now, o, raw) ->
        let znow = z_of_int now in
        if c.kind = 3 && n_elems o > 0 then begin
@@ -166,7 +166,7 @@ let run_case ~dump (c : case) (impl : string array) : (int * string * string * s
                let (st', r) = zc_step !st o znow (List.map nat_of_int d) in
                let m = fmt_ret r in
                if !first = None then first := Some (st', m);
-               if m = get !i && (match next_probe st' with None -> true | Some p -> p = get (!i + 1))
+               if (m = get !i || get !i = "*") && (match next_probe st' with None -> true | Some p -> p = get (!i + 1))
                then ok := Some (st', m)
              end) cands;
          (match !ok, !first with
@@ -182,7 +182,7 @@ let run_case ~dump (c : case) (impl : string array) : (int * string * string * s
          let (st', r) = zc_step !st o znow [] in
          let m = fmt_ret r in
          if dump then Printf.printf "  M %s\n" m;
-         if m <> get !i then result := Some (!i, raw, m, get !i);
+         if m <> get !i && get !i <> "*" then result := Some (!i, raw, m, get !i);
          st := st'
        end);
     incr i
